@@ -256,3 +256,24 @@ package types
 //@ prelude
 //@ (define-fun decodeWrkChain ((b (Slice Int))) wrkchain.WrkChain (unmarshal.wrkchain.WrkChain b))
 //@ end
+
+// ---------------------------------------------------------------- stateless validation (run by baseapp before any handler) and the authority signer
+//@ func MsgRegisterWrkChain.ValidateBasic(msg) (err)
+//@   props C07 C09 C13
+//@   nopanic
+//@   ensures err == nil ==> validBech32(msg.Owner) && 1 <= len(msg.Moniker) && len(msg.Moniker) <= 64 && len(msg.Name) <= 128 && len(msg.GenesisHash) <= 66
+//@ func MsgRecordWrkChainBlock.ValidateBasic(msg) (err)
+//@   props C07 C13
+//@   nopanic
+//@   ensures err == nil ==> validBech32(msg.Owner) && msg.WrkchainId >= 1 && msg.Height >= 1 && 1 <= len(msg.BlockHash) && len(msg.BlockHash) <= 66 && len(msg.ParentHash) <= 66 && len(msg.Hash1) <= 66 && len(msg.Hash2) <= 66 && len(msg.Hash3) <= 66
+//@ func MsgPurchaseWrkChainStateStorage.ValidateBasic(msg) (err)
+//@   props C08 C13
+//@   nopanic
+//@   ensures err == nil ==> validBech32(msg.Owner) && msg.WrkchainId >= 1 && msg.Number >= 1
+//@ func (*MsgUpdateParams).ValidateBasic(m) (err)
+//@   props C16 C13
+//@   ensures err == nil ==> validBech32(m.Authority) && validDenom(m.Params.Denom) && m.Params.FeeRegister >= 1 && m.Params.FeeRecord >= 1 && m.Params.FeePurchaseStorage >= 1 && m.Params.DefaultStorageLimit >= 1 && m.Params.DefaultStorageLimit <= m.Params.MaxStorageLimit
+//@ func (*MsgUpdateParams).GetSigners(m) (signers)
+//@   props C13
+//@   requires validBech32(m.Authority)
+//@   ensures len(signers) == 1 && signers[0] == addrOf(m.Authority)
